@@ -222,6 +222,20 @@ class Collab:
             if self.fault[1] == "interrupt":
                 raise CollabInterrupt("injected interrupt in %s call %d"
                                       % (self.name, n))
+            if self.fault[1] == "boolify":
+                # the result this call would have given, with one number
+                # replaced by the bool that compares equal to it
+                self.fired = False
+                r = self.fn(*a)
+                if isinstance(r, dict):
+                    for k, v in r.items():
+                        if isinstance(v, (int, float)) and not isinstance(
+                                v, bool) and v in (0, 1):
+                            r = dict(r)
+                            r[k] = bool(v)
+                            self.fired = True
+                            break
+                return r
             return self.fault[1][1]
         return self.fn(*a)
 
